@@ -158,6 +158,7 @@ def assigned_names(stmts):
 
 
 def havoc_locals(st, names):
+    names = list(names) + [n for n in st.locals if n.startswith('_g') and n not in names]   # ghost locals too
     for nm in names:
         v = st.locals.get(nm)
         if v is None:
